@@ -330,6 +330,13 @@ func elemFor(el Value, t types.Type) (Value, bool) {
 	return nil, false
 }
 
+func sameScalar(a, b Value) bool {
+	if !isScalar(a) || !isScalar(b) {
+		return false
+	}
+	return lit(a) == lit(b)
+}
+
 func isNumber(v Value) bool {
 	switch v.(type) {
 	case int64, *Term:
@@ -387,10 +394,9 @@ func (e *Engine) jsonUnmarshal(data, target Value) Value {
 			arr, off, ocap = s.Arr, s.Off, s.Cap
 		}
 		var cells []Value
+		reused := false
 		if arr != nil && n <= ocap {
-			if n > 0 {
-				e.checkWrite(arr)
-			}
+			reused = true
 			cells = arr.Val.(*StructV).F[off : off+ocap]
 		} else {
 			// growth: elements decoded so far are carried over (reflect.Append semantics); new cells are zero
@@ -408,6 +414,9 @@ func (e *Engine) jsonUnmarshal(data, target Value) Value {
 		var err Value = Nil{}
 		for i, el := range d.Elems {
 			if x, ok := elemFor(el, t.Elem()); ok {
+				if reused {
+					e.noteStore(arr, cells[i], x) // decoded in place into the live backing array
+				}
 				cells[i] = x
 			} else if _, isNil := err.(Nil); isNil {
 				err = jsonErr("cannot unmarshal element of the wrong JSON type") // the cell keeps what it held
@@ -454,10 +463,11 @@ func (e *Engine) jsonUnmarshal(data, target Value) Value {
 				}
 				el = x
 			}
-			e.checkWriteMap(mv.M)
 			if j := e.mapSlot(mv.M, k); j >= 0 {
+				e.noteMapStore(mv.M, mv.M.Vals[j], el)
 				mv.M.Vals[j] = el
 			} else {
+				e.checkWriteMap(mv.M)
 				mv.M.Keys = append(mv.M.Keys, k)
 				mv.M.Vals = append(mv.M.Vals, el)
 			}
